@@ -365,15 +365,15 @@ P("C04",
   level_text="Readers decided to decode exactly the logical content on symbolic valid inputs per component: any FAT link values (next), any valid sibling-tree shape and colouring (lookup), any directory-entry field values (codec), fragmented chains.",
   level_note="Whole-file layouts only through the component harnesses.", bounds="as C01/C03/C16", outside="whole-file symbolic layouts")
 P("C11",
-  level_text="The checked lookups (Allocator::next, MiniAllocator::next_mini_sector, Chain::new) are total for all u32 arguments over fully symbolic tables; every walk of the write path (extend_chain, extend_mini_chain, free_mini_chain, free_mini_chain_after) started from each class of unvalidated start sector returns Ok or Err without panic and terminates.",
-  level_note="Start sectors are enumerated over their classes per instance, not symbolic; histories of several mutating calls on a damaged file are not composed (one walk per harness); the unchecked indexing found here was repaired by a041510.", bounds="FAT/MiniFAT <= 5 cells", outside="larger tables, damaged files beyond a bad start sector / size field, multi-call histories")
+  level_text="The checked lookups (Allocator::next, MiniAllocator::next_mini_sector, Chain::new) are total for all u32 arguments over fully symbolic tables; every walk of the write path started from each class of unvalidated start sector, and every storage function (read/write/resize) on each class of directory entry whose start sector and length disagree with its chain, returns Ok or Err without panic and terminates; Stream::write from an arbitrary cache state and set_len with extreme lengths never overflow; open on a file with more sectors than its FAT covers leaves an allocator that can allocate.",
+  level_note="Damage classes (start sector class, entry/chain disagreement class, a cyclic mini-stream chain, FAT coverage) are enumerated per instance, not symbolic; histories of several mutating calls on a damaged file are not composed (one call per harness). Six unchecked spots found here were repaired (a041510, 70775ef, 3971f98, b0c4eef).", bounds="FAT/MiniFAT <= 5 cells in the walk harnesses; 4-5 sector images for the entry classes; all u64 for Stream::write / seek arithmetic", outside="larger tables, damage outside the listed classes, multi-call histories on a damaged file")
 
 P("C12",
   level_text="Fault injection as solver variables: the position of the failing read/seek among all underlying calls of a buffer refill is symbolic; Ok results must equal the fault-free content, retries must not return stale bytes.",
   level_note="One fault per scenario, concrete scenario (second refill of a buffered read).", bounds="1 fault, 8-byte window, 100-byte stream", outside="pairs of faults, faults during open/walk")
 P("C13",
-  level_text="Fault injection as solver variables for write/seek/flush during write-back and during chain freeing: the error surfaces, later calls do not panic, flush Ok implies the bytes are stored.",
-  level_note="One fault per scenario.", bounds="1 fault", outside="pairs of faults; faults in directory updates")
+  level_text="Fault injection for write/seek/flush during write-back (cache level), chain freeing, directory-entry updates and the allocation of a file's first mini sector: the error surfaces, later calls do not panic, and when the retried call returns Ok the bytes / entry / header fields are in the file image (own decoder).",
+  level_note="One fault per scenario; the fault position is enumerated per instance.", bounds="1 fault per scenario, position k enumerated (see harness names)", outside="pairs of faults; faults inside FAT growth and directory growth; whole-API retry histories beyond the listed steps")
 P("C14", level="other",
   level_text="Sequential lock discipline decided by the solver on the real code with an instrumented lock: no acquisition while a guard of the same lock is live, guards released before returning, no try-lock that panics under contention.  Freedom from deadlock follows for a single lock with no other blocking primitive (argued on paper).",
   level_note="Thread schedules are NOT explored by any engine in this family (Kani does not model threads); progress under real contention is outside.",
